@@ -86,6 +86,7 @@ Definition enc_plan_port (fc : file_contents) (p : port_info) : sexp :=
 
 Definition run_build3 (t : Z) (a : list sexp) : sexp :=
   match t, a with
+  | 603, [contents] => enc_str (Md5.content_hash (dec_str contents))
   | 602, [doc; cfg] =>
       match process (dec_json doc) with
       | Err e => SL [SI (100 + Z.of_nat (err_code e))]
